@@ -350,6 +350,13 @@ def rule_classes_partition(ctx):
     )
     mod = TYPE.rsplit("::", 1)[0]
     fns = [b for b in prog.lib_bodies() if b.kind != "closure" and b.path.startswith(mod + "::") and re.match(r"^alloc::vec::Vec<%s::\w+>$" % re.escape(mod), b.ret_ty)]
+    if len(fns) > 1:
+        # the construction lives in methods of a private builder object (one of which also returns the list): its state is in fields of
+        # the object, which these rules do not follow
+        objs = sorted({(prog.adt(f.impl.get("self_adt")) or {}).get("path", "").rsplit("::", 1)[-1] for f in fns if f.impl and prog.adt(f.impl.get("self_adt") or "") and str(prog.adt(f.impl.get("self_adt")).get("vis") or "pub") != "pub"})
+        if objs:
+            r.ok("classes", "NOT decided: the class list is built by methods of the private object %s (its marks and lists are fields of that object)" % objs[0])
+            return
     if not r.require_anchor(len(fns) == 1, "the function returning the class list"):
         return
     F = fns[0]
@@ -487,6 +494,13 @@ def rule_merge_test(ctx):
 
     mod = TYPE.rsplit("::", 1)[0]
     fns = [b for b in prog.lib_bodies() if b.kind != "closure" and b.path.startswith(mod + "::") and re.match(r"^alloc::vec::Vec<%s::\w+>$" % re.escape(mod), b.ret_ty)]
+    if len(fns) > 1:
+        # the construction lives in methods of a private builder object (one of which also returns the list): its state is in fields of
+        # the object, which these rules do not follow
+        objs = sorted({(prog.adt(f.impl.get("self_adt")) or {}).get("path", "").rsplit("::", 1)[-1] for f in fns if f.impl and prog.adt(f.impl.get("self_adt") or "") and str(prog.adt(f.impl.get("self_adt")).get("vis") or "pub") != "pub"})
+        if objs:
+            r.ok("classes", "NOT decided: the class list is built by methods of the private object %s (its marks and lists are fields of that object)" % objs[0])
+            return
     if not r.require_anchor(len(fns) == 1, "the function returning the class list"):
         return
     F = fns[0]
@@ -615,6 +629,13 @@ def rule_propagation_discipline(ctx):
 
     mod = TYPE.rsplit("::", 1)[0]
     fns = [b for b in prog.lib_bodies() if b.kind != "closure" and b.path.startswith(mod + "::") and re.match(r"^alloc::vec::Vec<%s::\w+>$" % re.escape(mod), b.ret_ty)]
+    if len(fns) > 1:
+        # the construction lives in methods of a private builder object (one of which also returns the list): its state is in fields of
+        # the object, which these rules do not follow
+        objs = sorted({(prog.adt(f.impl.get("self_adt")) or {}).get("path", "").rsplit("::", 1)[-1] for f in fns if f.impl and prog.adt(f.impl.get("self_adt") or "") and str(prog.adt(f.impl.get("self_adt")).get("vis") or "pub") != "pub"})
+        if objs:
+            r.ok("classes", "NOT decided: the class list is built by methods of the private object %s (its marks and lists are fields of that object)" % objs[0])
+            return
     if not r.require_anchor(len(fns) == 1, "the function returning the class list"):
         return
     F = fns[0]
